@@ -827,10 +827,12 @@ MANIFEST = {
             "cache_clear() and is_running()'s reuse marking, for every history of kernel events and calls, any number of generators "
             "advanced in any interleaving: pids() is the strictly ascending list of exactly the listed PIDs; pid_exists(n) equals "
             "membership for every integer n (thread ids, negatives, values beyond pid_t give False, never an exception); every "
-            "generator yields strictly ascending PIDs, all listed when it started, the cached object for cached unmarked PIDs and a "
-            "fresh one otherwise, info keys = the requested names, no exception other than ValueError for an invalid name; on "
-            "exhaustion every listed PID was yielded, or vanished meanwhile, or (known finding, refuted theorem kept) was marked as "
-            "reused while cached; after a generator finishes the cache holds exactly its entries (none for PIDs not listed), "
+            "generator yields strictly ascending PIDs, all listed when it started; exactly: the cached object iff the PID was cached, "
+            "unmarked and its instance carries no reused flag, else an object made in that next(); end-to-end: an object yielded by "
+            "an exhausted iteration is yielded again by the next iterations while the PID keeps its start ticks (no cache_clear, no "
+            "other generator finishing in between: necessity refuted otherwise); info keys = the requested names, no exception other than ValueError for an invalid name; on "
+            "exhaustion every listed PID was yielded or passed over, and whoever was passed over while in the table was cached "
+            "and (marked as reused or ppid requested) -- the exact class of the known finding, never yielded (theorem for every member); after a generator finishes the cache holds exactly its entries (none for PIDs not listed), "
             "cache_clear() empties it; after is_running() found an object recycled (also mid-iteration) no generator entered later yields it, "
             "whatever the interleaving (repaired by b70d950; the refutation of the code before it is kept in C04/Legacy.v). Text level: the procfs-root filter and the Tgid scan return the kernel's values for every "
             "printed listing / status file. Tied to the code by running the real psutil over a fake /proc on generated histories.",
